@@ -48,7 +48,7 @@ def normalise(rows):
 
 
 def check_batch(np, torch, pe, dec_mod, engine, paths, C, style):
-    chars = ['a', 'b', 'c', 'd'][:C - 1] + ['​']
+    chars = ['a', ' ', 'c', 'd'][:C - 1] + ['​']
     letters = chars[:-1] + [dec_mod.BLANK_SYMBOL]
     T = len(paths[0])
     mats = [normalise(scores_for_path(p, C, style)) for p in paths]
@@ -98,7 +98,7 @@ def _chunk(args):
     Stub = make_engine(np, torch, pe)
     out = {'evaluations': 0, 'nontrivial': 0, 'failures': [], 'samples': []}
     for paths, C, style in cases:
-        chars = ['a', 'b', 'c', 'd'][:C - 1] + ['​']
+        chars = ['a', ' ', 'c', 'd'][:C - 1] + ['​']
         out['evaluations'] += 1
         if any(len(set(p)) > 1 for p in paths):
             out['nontrivial'] += 1
@@ -189,7 +189,7 @@ def replay(entry):
     from pero_ocr.decoding import decoders as dec_mod
     inp = entry['input']
     C = inp['classes']
-    chars = ['a', 'b', 'c', 'd'][:C - 1] + ['​']
+    chars = ['a', ' ', 'c', 'd'][:C - 1] + ['​']
     bad = check_batch(np, torch, pe, dec_mod, make_engine(np, torch, pe)(chars), [tuple(p) for p in inp['argmax_paths']], C, inp['style'])
     for b in bad:
         print('REPLAY-FAIL', b)
